@@ -139,6 +139,41 @@ fn sampled_schedules(ctx: &mut Ctx, prop: &'static str, classes: &'static [&'sta
     }
 }
 
+/// randomly controlled and adversarial fixed-order schedules on random graphs of 5-6 files
+fn controlled_mid_size(ctx: &mut Ctx, prop: &'static str, classes: &'static [&'static str], r: &mut StdRng, cases: usize, acyclic_only: bool) {
+    for _ in 0..cases {
+        if !ctx.time_left() {
+            break;
+        }
+        let n = r.gen_range(5..=6);
+        let mut mask = 0u64;
+        for i in 0..n {
+            for j in (i + 1)..n {
+                if r.gen_bool(0.35) {
+                    mask |= 1 << (i * n + j);
+                }
+            }
+        }
+        if !acyclic_only && r.gen_bool(0.3) {
+            let i = r.gen_range(0..n);
+            let j = r.gen_range(0..=i);
+            mask |= 1 << (i * n + j);
+        }
+        let mut case = GraphCase::new(n, mask);
+        case.kinds = r.gen::<u64>() & mask;
+        case.obs = case.kinds != 0;
+        case.markers = r.gen_bool(0.5);
+        case.threads = r.gen_range(1..=4);
+        case.requested = (0..n).filter(|_| r.gen_bool(0.5)).collect();
+        if case.requested.is_empty() {
+            case.requested.push(0);
+        }
+        case.shaped = r.gen_bool(0.3);
+        sampled_schedules(ctx, prop, classes, &case, r, 4, mask != 0);
+        ctx.count("mid_size_graph_cases", 1);
+    }
+}
+
 fn free_stress(ctx: &mut Ctx, prop: &'static str, classes: &'static [&'static str], r: &mut StdRng, runs: usize, acyclic_only: bool) {
     for k in 0..runs {
         if !ctx.time_left() {
@@ -189,8 +224,9 @@ fn free_stress(ctx: &mut Ctx, prop: &'static str, classes: &'static [&'static st
 
 fn quick_budget(ctx: &mut Ctx) {
     // the exhaustive <=3-file enumeration needs ~80 s on 16 cores (one large DFS dominates the tail)
-    if ctx.tier == Tier::Quick && std::env::var("VERIF_BUDGET").is_err() {
-        ctx.budget = std::time::Duration::from_secs(110);
+    if std::env::var("VERIF_BUDGET").is_err() {
+        // thorough: the full-interleaving pass and the 4-file sweeps need ~20 min on 16 cores
+        ctx.budget = std::time::Duration::from_secs(ctx.tier.pick(110, 1500));
     }
 }
 
@@ -313,6 +349,8 @@ fn run_c02(ctx: &mut Ctx) {
     // 5-8 files, free-running stress
     let n = ctx.tier.pick(60, 1500);
     free_stress(ctx, "C02", C02_CLASSES, &mut r, n, true);
+    let m = ctx.tier.pick(6, 300);
+    controlled_mid_size(ctx, "C02", C02_CLASSES, &mut r, m, true);
     // exhaustive part: n <= 3
     'all: for n in 1..=3usize {
         for mask in acyclic_masks(n) {
@@ -411,6 +449,8 @@ fn digraph_enumeration(ctx: &mut Ctx, prop: &'static str, classes: &'static [&'s
     slow_natural(ctx, prop, classes);
     let n = ctx.tier.pick(40, 800);
     free_stress(ctx, prop, classes, &mut r, n, false);
+    let m = ctx.tier.pick(5, 200);
+    controlled_mid_size(ctx, prop, classes, &mut r, m, false);
     'all: for n in 1..=3usize {
         for mask in 0..(1u64 << (n * n)) {
             let g = crate::gen::Graph::from_mask(n, mask, 0);
